@@ -266,7 +266,7 @@ func (tree *Tree[T]) match(ctx *types.Context, method string) (types.Node, T, bo
 	if node == nil || node.size() == 0 {
 		return nil, tree.notFound, false
 	}
-	if h, exists := node.handlers[method]; exists {
+	if h, exists := node.handlers[method]; exists && method != methodNotAllowed { // 空的请求方法不是一个已注册的请求方法
 		return node, h, true
 	}
 	return node, node.handlers[methodNotAllowed], false
